@@ -75,6 +75,8 @@ static void enumerateAll(const std::function<void(const Spec &)> &f0) {
             }
         }
   }
+  // L: large family (120 and 400 cells on 12 and 30 rows)
+  enumerateLarge([&](const Spec &s) { f0(s); });
   // A: primary cross product, 0 deviations
   Cfg a;
   a.rhs = {2, 1};
